@@ -77,6 +77,8 @@ def evaluate(ck, recs):
                 if r["r12"] or r["b1"][1] != r["b2"][1]:
                     ck.nontrivial(("c", tuple(r["b1"]), tuple(r["b2"])))
             else:
+                if "dc" in r and bool(r["dc"]) != bool(r["bits"][4]) and code == 0:
+                    code = 1  # the exported IsDifferentChain on the raw values must equal the method's answer
                 cls = tuple(r["bits"])
                 ck.nontrivial(("f", cls, r["tl"] is None, r["last"][2] == 0xffffffff))
             if code != 0:
@@ -119,6 +121,34 @@ def run(ck):
             c02.evaluate(ck, hrecs, tag="hist")
             ck.extra["liskbft_histories"] = len(hrecs)
             ck.extra["liskbft_contradiction_flags_seen"] = sum(1 for c in hrecs for o in c["obs"] if o["contra"])
+    # a rejected block must not change how the next block is classified (the receive time read by the tie-break rule belongs
+    # to the tip): real Executers, tip T received on time, competitor T2 of the next slot; control = T2 alone, attack = a garbage
+    # successor of T (broken signature) first.  LIP-0014: T was on time, so T2 is discarded in both runs.
+    lbr = [r for r in recs if r["k"] == "lbr"]
+    usable = [r for r in lbr if not r.get("skipped")]
+    for r in usable:
+        ck.count()
+        ck.nontrivial(("lbr", r["n"], r["control"], r["attack"]))
+        bad = []
+        if r["control"] != "T":
+            bad.append("a competitor of the next slot displaced a tip received within its slot (control run: tip %s)" % r["control"])
+        if r["attack"] != r["control"]:
+            bad.append("offering a REJECTED block first changed the outcome for the next block (tip %s instead of %s)" % (r["attack"], r["control"]))
+        if not r["g_rejected"]:
+            bad.append("the garbage block was not rejected")
+        if r["lbr_moved_by_g"]:
+            bad.append("the rejected block replaced the receive time of the unchanged tip")
+        if bad:
+            ck.failures.append(dict(
+                kind="history", key="c07:lbr:rejected-block-changes-next-classification", case=r, spec_violated=True,
+                what="Executer.process, %d validators: %s" % (r["n"], "; ".join(bad)), observed=r,
+                theorem_or_correspondence="tie-break input fidelity: t_last of classify is the receive time of the tip "
+                                          "(C07_process_branch_actions: ActSetReceived only after ActApply)"))
+    ck.obligations += 1
+    if usable:
+        ck.discharged += 1
+    else:
+        ck.fail_obligation("generator:lbr", "no usable receive-time scenario: %s" % [r.get("skipped") for r in lbr])
     ck.obligations += 1
     kinds = {k: sum(1 for r in recs if r["k"] == k) for k in ("contra", "fc", "prio", "synced")}
     ck.extra["records_by_kind"] = kinds
@@ -156,7 +186,7 @@ def replay(ck, path):
         inp = ck.work + "/replay_in.jsonl"
         open(inp, "w").write(json.dumps(case) + "\n")
         recs = ck.run_harness(binp, ["-in", inp], out_name="replay.jsonl")
-    elif case["k"] == "synced":
+    elif case["k"] in ("synced", "lbr"):
         print("Executer.Synced case (node-dependent): re-generated by a full run")
         run(ck)
         return ck.finish(LEVEL)
